@@ -6,11 +6,13 @@
 import Gleece.Driver.Common
 import Gleece.Driver.Paths
 import Gleece.Driver.Graph
+import Gleece.Driver.Annot
 open Lean Gleece.Driver
 
 def handlers : List (String × Handler) := [
   ("paths", pathsHandler),
-  ("graph", graphHandler)
+  ("graph", graphHandler),
+  ("annot", annotHandler)
 ]
 
 def processLine (line : String) (implLine : Option String) : Json :=
